@@ -2,6 +2,11 @@ import Holpy.C10.IntModel
 import Holpy.C10.PolyModel
 import Holpy.C10.ProofsInt
 import Holpy.C10.ProofsPolySem
+import Holpy.C10.ProofsIntOrdBody
+import Holpy.C10.ProofsIntClosure
+import Holpy.C10.ProofsIntIdem
+import Holpy.C10.ProofsIntInjSem
+import Holpy.C10.ProofsIntEqSign
 /-
 C10 — property theorems about the integer Conv normaliser (`data/integer.py`: `simp_full`,
 `int_norm_conv`, `int_norm_eq`).
@@ -49,13 +54,8 @@ theorem evalE_embI (ρ : Nat → Int) (t : IExp) : evalE ρ (embI t) = evalI ρ 
   | pow b e ih => simp [embI, evalE, evalI, ih]
 
 /-- The normal form has the identical `convert_to_poly` list as the term (polynomial semantics with
-x^n expanded), so two terms with the same normal form have the same polynomial.
-PARTIAL (`int_norm_canonical` is NOT proved): the converse -- same polynomial ⇒ same normal form --
-needs the normal-form closure of `insMI`/`multAtom`/... and that a normal-form tree is determined by
-its polynomial, as for the nat normaliser; note also that `simp_full` does not expand powers of
-non-atomic bases ((i + j)^2 stays an atom), so the converse can only hold on the fragment whose
-powers have atomic bases.  Canonicity is compared against the independent evaluator every run. -/
-theorem int_norm_canonical_partial (a b : IExp) :
+x^n expanded), so two terms with the same normal form have the same polynomial. -/
+theorem int_norm_poly_invariant (a b : IExp) :
     toPoly (embI (intNorm a)) = toPoly (embI a) ∧
     (intNorm a = intNorm b → toPoly (embI a) = toPoly (embI b)) := by
   have inv : ∀ t, toPoly (embI (intNorm t)) = toPoly (embI t) := fun t =>
@@ -63,5 +63,127 @@ theorem int_norm_canonical_partial (a b : IExp) :
   exact ⟨inv a, fun h => by rw [← inv a, ← inv b, h]⟩
 
 example : toPoly (embI (intNorm (.mul (.atom 0 1) (.atom 0 1)))) = [([(0, 2)], 1)] := by decide
+
+/- why `int_norm_canonical` needs more than `atomicPowers`: `i ^ 0` and `1` have the same value under
+every valuation but distinct normal forms (`data/integer.py` agrees: `int_norm_conv` leaves `i ^ 0`) -/
+example : atomicPowers (.pow (.atom 0 1) 0) = true ∧
+    (∀ ρ, evalI ρ (.pow (.atom 0 1) 0) = evalI ρ (.num 1)) ∧
+    intNorm (.pow (.atom 0 1) 0) ≠ intNorm (.num 1) :=
+  ⟨by decide, fun ρ => by simp [evalI], by decide⟩
+
+/-- The model's `fast_compare` on numeral exponents (size of the binary numeral term, `one` before
+`zero`, then the digits least significant first) is a strict total order. -/
+theorem int_numCmp_total :
+    (∀ n m, (numCmp n m).swap = numCmp m n) ∧ (∀ n m, numCmp n m = .eq → n = m) ∧
+    (∀ a b c, numCmp a b = .lt → numCmp b c = .lt → numCmp a c = .lt) :=
+  ⟨numCmp_swap, numCmp_eq, numCmp_trans⟩
+
+/- 4 < 6 < 5 < 7 in this order (same length, least significant digit first) -/
+example : numCmp 4 6 = .lt ∧ numCmp 6 5 = .lt ∧ numCmp 5 7 = .lt ∧ numCmp 4 7 = .lt := by decide
+
+/-- The model's `fast_compare` on integer monomial bodies (`x ^ e` with atomic base, and left-nested
+products of such) is a strict total order: swapped arguments give the swapped answer, `eq` only on
+identical bodies, `lt` transitive. -/
+theorem int_bodyCmp_total :
+    (∀ a b, (bodyCmp a b).swap = bodyCmp b a) ∧
+    (∀ a b, isTreeI a = true → isTreeI b = true → bodyCmp a b = .eq → a = b) ∧
+    (∀ a b c, isTreeI a = true → isTreeI b = true → isTreeI c = true →
+      bodyCmp a b = .lt → bodyCmp b c = .lt → bodyCmp a c = .lt) :=
+  ⟨bodyCmp_swap, bodyCmp_eq, bodyCmp_trans⟩
+
+/- i^2 < i * j (an atom against a product of the same size: `power` < `times`) and i * j < i^4 (size) -/
+example : bodyCmp (.pow (.atom 0 1) 2) (.mul (.pow (.atom 0 1) 1) (.pow (.atom 1 1) 1)) = .lt ∧
+    bodyCmp (.mul (.pow (.atom 0 1) 1) (.pow (.atom 1 1) 1)) (.pow (.atom 0 1) 4) = .gt := by decide
+
+/-- Closure of the multiplicative monomial layer: `norm_mult_atom` keeps a body (strictly increasing
+atomic bases) a body, and `norm_mult_monomial` maps two monomials (`c * body`, `c ≠ 0`, or a non-zero
+numeral) to a monomial. -/
+theorem int_mult_monomial_closed :
+    (∀ p c, isBodyI p = true → isAtomPow c = true → isBodyI (multAtom p c) = true) ∧
+    (∀ x y, isMonoI x = true → isMonoI y = true → isMonoI (multMono x y) = true) :=
+  ⟨fun _ _ hp hc => (multAtom_closed hp hc).1, fun _ _ hx hy => multMono_closed hx hy⟩
+
+example : isMonoI (multMono (.mul (.num 2) (.mul (.pow (.atom 0 1) 1) (.pow (.atom 1 1) 2)))
+    (.mul (.num (-3)) (.pow (.atom 0 1) 1))) = true := by decide
+
+/-- Closure: on every term whose powers have atomic bases (`atomicPowers`, decided by the driver on
+every generated input) `simp_full` returns a normal form -- `0`, or a left-nested sum of monomials
+strictly increasing under `compare_monomial` (numerals first), each a non-zero numeral or
+`c * body`, `c ≠ 0`, `body` a left-nested product of powers with strictly increasing atomic bases;
+the layers `norm_add_monomial` / `norm_add_polynomial` / `norm_mult_polynomials` keep that shape,
+also when coefficients cancel. -/
+theorem int_norm_nf_closed :
+    (∀ t, atomicPowers t = true → isNFI (simpFull t) = true) ∧
+    (∀ p c, isNFI p = true → isMonoI c = true → isNFI (insMI p c) = true) ∧
+    (∀ a b, isNFI a = true → isNFI b = true →
+      isNFI (addPI a b) = true ∧ isNFI (subPI a b) = true ∧ isNFI (mulPI a b) = true) :=
+  ⟨fun _ h => simpFull_nf h, fun _ _ hp hc => insMI_nf hp hc,
+   fun _ _ ha hb => ⟨addPI_nf ha hb, subPI_nf ha hb, mulPI_nf ha hb⟩⟩
+
+/- cancellation: (2*i*j + 3) + (-2)*i*j is the normal form 3; and a proper sum -/
+example : insMI (.add (.num 3) (.mul (.num 2) (.mul (.pow (.atom 0 1) 1) (.pow (.atom 1 1) 1))))
+    (.mul (.num (-2)) (.mul (.pow (.atom 0 1) 1) (.pow (.atom 1 1) 1))) = .num 3 := by decide
+example : atomicPowers (.mul (.add (.atom 0 1) (.atom 1 1)) (.sub (.atom 0 1) (.num 2))) = true ∧
+    isNFI (simpFull (.mul (.add (.atom 0 1) (.atom 1 1)) (.sub (.atom 0 1) (.num 2)))) = true ∧
+    simpFull (.mul (.add (.atom 0 1) (.atom 1 1)) (.sub (.atom 0 1) (.num 2))) ≠ .num 0 := by decide
+
+/-- Idempotence: `simp_full` rebuilds a normal form from its displayed presentation (`1 * x` shown as
+`x`, `x ^ 1` as `x`), so `int_norm_conv` applied to its own result changes nothing (terms whose powers
+have atomic bases). -/
+theorem int_norm_idem :
+    (∀ n, isNFI n = true → simpFull (stripPow1 (strip1 n)) = n) ∧
+    (∀ t, atomicPowers t = true → intNorm (intNorm t) = intNorm t) :=
+  ⟨fun _ h => strip_nf h, fun _ h => intNorm_idem h⟩
+
+example : intNorm (.mul (.add (.atom 0 1) (.atom 1 1)) (.atom 0 1))
+      = .add (.pow (.atom 0 1) 2) (.mul (.atom 0 1) (.atom 1 1)) ∧
+    intNorm (.add (.pow (.atom 0 1) 2) (.mul (.atom 0 1) (.atom 1 1)))
+      = .add (.pow (.atom 0 1) 2) (.mul (.atom 0 1) (.atom 1 1)) := by decide
+
+/-- Canonicity of `simp_full` / `int_norm_conv`: two integer terms have the same normal form exactly
+when they have the same value under every valuation of the atoms (i.e. are equal as polynomials) --
+on the fragment `fragI` decided by the driver on the generated inputs: powers only of atoms, no
+exponent `0` (the code keeps `i ^ 0`, see the example above), atoms determined by their rank. -/
+theorem int_norm_canonical (a b : IExp) (h : fragI a b = true) :
+    (simpFull a = simpFull b ↔ ∀ ρ, evalI ρ a = evalI ρ b) ∧
+    (intNorm a = intNorm b ↔ ∀ ρ, evalI ρ a = evalI ρ b) := by
+  simp only [fragI, Bool.and_eq_true] at h
+  obtain ⟨⟨⟨pa, pb⟩, wa⟩, wb⟩ := h
+  have key := fun hv => simpFull_canonical _ pa pb wa wb hv
+  refine ⟨⟨fun e ρ => ?_, key⟩, ⟨fun e ρ => ?_, fun hv => ?_⟩⟩
+  · rw [← simpFull_sound ρ a, ← simpFull_sound ρ b, e]
+  · rw [← intNorm_sound ρ a, ← intNorm_sound ρ b, e]
+  · unfold intNorm; rw [key hv]
+
+/- (i + j)^2-style expansion: (i + j) * (i + j) and i^2 + 2*i*j + j^2 (in another order) -/
+example : fragI (.mul (.add (.atom 0 1) (.atom 1 1)) (.add (.atom 0 1) (.atom 1 1)))
+      (.add (.pow (.atom 1 1) 2) (.add (.mul (.num 2) (.mul (.atom 1 1) (.atom 0 1))) (.pow (.atom 0 1) 2))) = true ∧
+    intNorm (.mul (.add (.atom 0 1) (.atom 1 1)) (.add (.atom 0 1) (.atom 1 1)))
+      = intNorm (.add (.pow (.atom 1 1) 2) (.add (.mul (.num 2) (.mul (.atom 1 1) (.atom 0 1))) (.pow (.atom 0 1) 2))) := by
+  decide
+
+/-- Canonicity of `int_norm_eq`: equations that are equivalent by moving terms across `=` (the
+differences `lhs - rhs` have the same value under every valuation) and equations that differ by an
+overall sign (`b = a`, `-a = -b`: the differences are negatives of each other) get the identical
+normalised equation `lhs' = 0` -- on the fragment `fragI` of the two differences, decided by the
+driver. -/
+theorem int_norm_eq_canonical (a b a' b' : IExp) (h : fragI (.sub a b) (.sub a' b') = true) :
+    ((∀ ρ, evalI ρ a - evalI ρ b = evalI ρ a' - evalI ρ b') → intNormEq a b = intNormEq a' b') ∧
+    ((∀ ρ, evalI ρ a' - evalI ρ b' = - (evalI ρ a - evalI ρ b)) → intNormEq a b = intNormEq a' b') := by
+  refine ⟨fun hv => ?_, fun hv => ?_⟩
+  · have := (int_norm_canonical (.sub a b) (.sub a' b') h).1.2 (fun ρ => by simpa [evalI] using hv ρ)
+    unfold intNormEq
+    rw [this]
+  · simp only [fragI, Bool.and_eq_true] at h
+    obtain ⟨⟨⟨pa, pb⟩, wa⟩, wb⟩ := h
+    exact intNormEq_sign _ pa pb wa wb hv
+
+/- i = j + 3 and j + 3 = i (overall sign) -/
+example : intNormEq (.atom 0 1) (.add (.atom 1 1) (.num 3)) = intNormEq (.add (.atom 1 1) (.num 3)) (.atom 0 1) := by
+  decide
+
+/- i + 2 = j  and  i = j - 2 -/
+example : intNormEq (.add (.atom 0 1) (.num 2)) (.atom 1 1) = intNormEq (.atom 0 1) (.sub (.atom 1 1) (.num 2)) := by
+  decide
 
 end Holpy.C10
